@@ -560,7 +560,7 @@ class Linalg:
         """
         side = len(matrix)
         inverse = np.eye(side, dtype="object")
-        matrix = np.column_stack((matrix, inverse))
+        matrix = np.column_stack((np.array(matrix, dtype="object"), inverse))
 
         # Eliminate lower triangle
         for k in range(side):
